@@ -30,6 +30,7 @@ type Proc struct {
 	gate     string
 	release  chan struct{}
 	mustMove bool
+	dead     bool
 	Panic    interface{}
 	Data     interface{}
 }
@@ -123,9 +124,8 @@ func (s *Sched) Point(point string) {
 	s.park(p, point)
 }
 
-// AuxGate parks the calling (auxiliary) goroutine on behalf of proc name
-func (s *Sched) AuxGate(name string, point string) {
-	p := s.Proc(name)
+// AuxGate parks the calling (auxiliary) goroutine on behalf of proc p
+func (s *Sched) AuxGate(p *Proc, point string) {
 	if p == nil {
 		return
 	}
@@ -134,6 +134,10 @@ func (s *Sched) AuxGate(name string, point string) {
 
 func (s *Sched) park(p *Proc, point string) {
 	s.mu.Lock()
+	if p.dead {
+		s.mu.Unlock()
+		return
+	}
 	p.state = StGate
 	p.gate = point
 	p.mustMove = false
@@ -162,16 +166,45 @@ func (s *Sched) Release(name string, mustMove bool) error {
 	return nil
 }
 
-// Abandon forgets every proc (their goroutines stay parked forever): kill
-func (s *Sched) Abandon() {
+// Abandon forgets every proc: kill. Their goroutines are no longer controlled:
+// gates do not stop them any more, so that they run to their end. Before any of
+// them is released, mark is called with their goroutine ids so that the caller
+// can make them invisible (no events, no store effects).
+func (s *Sched) Abandon(mark func(gids []int64)) {
 	s.mu.Lock()
-	defer s.mu.Unlock()
+	var gids []int64
+	var parked []*Proc
 	for n, p := range s.procs {
 		if p.state != StFinished {
-			delete(s.byGid, p.Gid)
+			gids = append(gids, p.Gid)
+			p.dead = true
+			if p.state == StGate {
+				p.state = StRunning
+				parked = append(parked, p)
+			}
 		}
 		delete(s.procs, n)
 	}
+	s.mu.Unlock()
+	if mark != nil {
+		mark(gids)
+	}
+	for _, p := range parked {
+		select {
+		case p.release <- struct{}{}:
+		default:
+		}
+	}
+}
+
+// GateOf the gate the proc is at ("" if it is not at a gate)
+func (s *Sched) GateOf(name string) string {
+	s.mu.Lock()
+	defer s.mu.Unlock()
+	if p := s.procs[name]; p != nil && p.state == StGate {
+		return p.gate
+	}
+	return ""
 }
 
 // Free tells whether the name can be used for a new proc
@@ -207,8 +240,22 @@ func goroutineStates() map[int64]string {
 		buf = make([]byte, 2*len(buf))
 	}
 	res := map[int64]string{}
+	var cur int64 = -1
 	for _, line := range strings.Split(string(buf), "\n") {
 		if !strings.HasPrefix(line, "goroutine ") {
+			// a frame line "pkg.func(args)": the first frame outside the runtime tells who is blocking.
+			// A goroutine blocked on one of the harness's own (briefly held) mutexes is not blocked.
+			if cur >= 0 && len(line) > 0 && line[0] != '\t' {
+				if strings.HasPrefix(line, "runtime.") || strings.HasPrefix(line, "sync.") ||
+					strings.HasPrefix(line, "internal/") || strings.HasPrefix(line, "sync/") {
+					continue
+				}
+				if !strings.HasPrefix(line, "github.com/vicanso/pike/") {
+					// blocked in the harness, the logger, the store...: held briefly by somebody who is running
+					res[cur] = "other:" + res[cur]
+				}
+				cur = -1
+			}
 			continue
 		}
 		rest := line[len("goroutine "):]
@@ -230,6 +277,7 @@ func goroutineStates() map[int64]string {
 			st = st[:j]
 		}
 		res[id] = st
+		cur = id
 	}
 	return res
 }
